@@ -112,7 +112,12 @@ def make_crystal(rng):
                     Rr = np.eye(3) + vx + vx @ vx * (1 / (1 + cth))
                 else:
                     Rr = np.eye(3)
-                o = np.array([rng.uniform(0.95, 0.995), rng.uniform(0.2, 0.8), rng.uniform(0.2, 0.8)]) @ Dm
+                # the first atom sits u bond lengths (perpendicular) inside the face x = 1, its partner (1-u) bond lengths outside: from just
+                # inside the face up to almost a whole bond length away from it
+                width = 1.0 / np.linalg.norm(np.linalg.inv(Dm)[:, 0])
+                blen = float(np.linalg.norm(q[1] - q[0]))
+                x0 = 1.0 - rng.choice([rng.uniform(0.02, 0.5), rng.uniform(0.5, 0.9), rng.uniform(0.9, 0.995)]) * blen / width
+                o = np.array([x0, rng.uniform(0.2, 0.8), rng.uniform(0.2, 0.8)]) @ Dm
                 P = o + (q - q[0]) @ Rr.T
             elif nm == "rod":
                 # tilted about 60 degrees from the short axis, in the a-b plane
@@ -125,6 +130,15 @@ def make_crystal(rng):
             cart += list(P)
             owner += [k] * len(z)
         cart = np.array(cart)
+        if rng.random() < 0.12:
+            # the centre of mass of the first molecule a few millionths of a cell edge below (or above) a cell face
+            idx0 = [a for a in range(len(owner)) if owner[a] == 0]
+            mass = np.array([Element[zs[a]].mass for a in idx0])
+            com = (cart[idx0] * mass[:, None]).sum(axis=0) / mass.sum()
+            fcom = uc.to_fractional(com[None, :])[0]
+            target = fcom.copy()
+            target[rng.randrange(3)] = rng.choice([1.0 - rng.uniform(1e-7, 9e-6), rng.uniform(1e-7, 9e-6), 1.0 - 1e-12])
+            cart[idx0] += uc.to_cartesian((target - fcom)[None, :])[0]
         # site labels as users supply them (PDB-style: the same label set repeated for every copy of a molecule), and site occupancies
         # (a half-occupied solvent molecule): neither changes which atoms are bonded or which molecule is an image of which
         extra = {}
